@@ -498,6 +498,14 @@ class Run:
             pred = self.stmt_prediction("pc", text, initial=PC0, target=PC0)
             reply, fails = self.case("sweep_pc", {"main.asm": prog})
             self.expect("sweep_pc", {"main.asm": prog}, reply, fails, pred, "`* = %s` then nop" % text)
+        # ---- `* =` inside a relocated segment (start 0, pc $1000; start $2000, pc 0): the relocated address decides too
+        for (ini, tgt) in [(0, 0x1000), (0x2000, 0)]:
+            for v in vals + [0x1000, 0x1fff, 0x2000, 0xffff]:
+                text = lit(v) if I64_MIN <= v <= I64_MAX else str(v)
+                prog = '.define segment { name = "a" start = %d pc = %d }\n* = %s\nnop\n' % (ini, tgt, text)
+                pred = self.stmt_prediction("pc", text, pc=ini, initial=ini, target=tgt)
+                reply, fails = self.case("sweep_pc_relocated", {"main.asm": prog})
+                self.expect("sweep_pc_relocated", {"main.asm": prog}, reply, fails, pred, "`* = %s` in a segment start=%d pc=%d, then nop" % (text, ini, tgt))
         # ---- branch targets (segment-less pass 0 uses the target as the base of `+ 2`)
         for v in [x for x in vals if I64_MIN <= x <= I64_MAX] + [-2, -3, -128]:
             prog = "bcc %s\n" % lit(v)
@@ -565,6 +573,11 @@ class Run:
             pred = "ok" if r["r"] == "ok" else "diag:loop_budget"
             reply, fails = self.case("sweep_loop", {"main.asm": prog})
             self.expect("sweep_loop", {"main.asm": prog}, reply, fails, pred, "nested loops %d x %d" % (a, b))
+        # a million iterations requested by three nested loops of 100: the shared budget stops it after 65536 (a budget per
+        # loop would let all of them run)
+        prog = ".loop 100 { .loop 100 { .loop 100 { } } }\n"
+        reply, fails = self.case("sweep_loop", {"main.asm": prog})
+        self.expect("sweep_loop", {"main.asm": prog}, reply, fails, "diag:loop_budget", "three nested loops of 100")
 
     def import_graphs(self, n):
         rng = self.rng
